@@ -87,12 +87,41 @@ class Runner:
                                       namespace=("ns" if i == 3 else None)) for i in range(8)]
         self.idx = {r: i for i, r in enumerate(self.res)}
         self.hung = False
+        self.pool = {}          # the caller's long-lived collections passed to subscribe_only_to
         self.heap = []          # every queue object ever seen, in creation order
         self.qid = {}
 
     def close(self):
         self.reg.time = self._saved_time
         self.reg._reset_registries()
+
+    # caller-side collections ---------------------------------------------------
+    def _pool_obj(self, pid, kind, rs):
+        """the caller's long-lived collection number `pid` (a set or a list), (re)filled with `rs` by the caller"""
+        key = (pid, kind)
+        items = [self.res[i] for i in rs]
+        obj = self.pool.get(key)
+        if obj is None:
+            obj = self.pool[key] = (set(items) if kind == "set" else list(items))
+        elif kind == "set":
+            obj.clear()
+            obj.update(items)
+        else:
+            obj[:] = items
+        return obj
+
+    def _collection(self, op):
+        """what the caller passes as `resources`: a fresh list (default), a fresh set / tuple, or one of its
+        long-lived collections — the SAME object may be passed for several subscribers and changed afterwards"""
+        rs = op[2]
+        how = op[3] if len(op) > 3 else None
+        if how is None or how == "list":
+            return [self.res[i] for i in rs]
+        if how == "set":
+            return {self.res[i] for i in rs}
+        if how == "tuple":
+            return tuple(self.res[i] for i in rs)
+        return self._pool_obj(how[1], how[2], rs)
 
     # canonical views -----------------------------------------------------------
     def _ev(self, e):
@@ -159,7 +188,13 @@ class Runner:
             elif k == "subscribe":
                 res = ["none"] if reg.subscribe(R[op[1]], R[op[2]]) is None else ["other"]
             elif k == "only":
-                res = ["none"] if reg.subscribe_only_to(R[op[1]], [R[i] for i in op[2]]) is None else ["other"]
+                res = ["none"] if reg.subscribe_only_to(R[op[1]], self._collection(op)) is None else ["other"]
+            elif k == "mutate":
+                # the caller changes ITS OWN collection (one it passed to subscribe_only_to earlier); the
+                # registry must not notice.  Observed through a plain read of one subscriber's view.
+                _, pid, kind, rs, who = op
+                self._pool_obj(pid, kind, rs)
+                res = ["set", sorted(self.idx[x] for x in reg.get_subscriptions(R[who]))]
             elif k == "unsubscribe":
                 res = ["none"] if reg.unsubscribe(R[op[1]], R[op[2]]) is None else ["other"]
             elif k == "notify":
@@ -399,6 +434,8 @@ def c_op(op):
         return f"(OSubscribe {op[1]} {op[2]})"
     if k == "only":
         return f"(OSubscribeOnly {op[1]} {c_natlist(op[2])})"
+    if k == "mutate":        # for the registry this is just a read: the model state must not move
+        return f"(OGetSubscriptions {op[4]})"
     if k == "unsubscribe":
         return f"(OUnsubscribe {op[1]} {op[2]})"
     if k == "notify":
@@ -468,6 +505,9 @@ def all_ops(nres, times=(1,), nq=0, subsets=True):
             for n in range(0, nres + 1):
                 for sub in itertools.combinations(R, n):
                     ops.append(["only", a, list(sub)])
+            for b in R:      # the same caller-owned set object handed over for different subscribers, then changed
+                ops.append(["only", a, [b], ["pool", 0, "set"]])
+        ops.append(["mutate", 0, "set", [], 0])
     for q in range(nq):
         ops += [["get", q], ["getdone", q]]
     return ops
@@ -523,7 +563,17 @@ class RandomSeq:
             rs = [rng.randrange(n) for _ in range(k)]
             if rng.random() < 0.3:
                 rs = [z for z in rs if z != r]
-            op = ["only", r, rs]
+            y = rng.random()
+            if y < 0.35:
+                op = ["only", r, rs, ["pool", rng.randrange(2), rng.choice(["set", "set", "list"])]]
+            elif y < 0.5:
+                op = ["only", r, rs, rng.choice(["set", "tuple"])]
+            else:
+                op = ["only", r, rs]
+            if rng.random() < 0.25:
+                kind = rng.choice(["set", "set", "list"])
+                self.pending.append(["mutate", rng.randrange(2), kind,
+                                     [rng.randrange(n) for _ in range(rng.choice([0, 1, 2]))], rng.randrange(n)])
         elif x < 0.60:
             if watches and rng.random() < 0.7:
                 u, v = rng.choice(watches)
